@@ -158,7 +158,8 @@ func ZZ_C19_Q1() {
 	views[3] = n.committedView()
 	// block 4 in flight + a pending mempool check
 	n.begin(0, votes, nil)
-	r = n.deliver(&zzTx{from: 2, to: 1, typ: ctrlertypes.TRX_TRANSFER, amount: uint256.NewInt(1), gas: govp.MinTrxGas(), gasPrice: govp.GasPrice(), nonce: 2, signer: 2})
+	// the in-flight block changes balances and bonded power (a delegation A2 -> A1)
+	r = n.deliver(&zzTx{from: 2, to: 1, typ: ctrlertypes.TRX_STAKING, amount: ctrlertypes.PowerToAmount(1), gas: govp.MinTrxGas(), gasPrice: govp.GasPrice(), nonce: 2, signer: 2})
 	n.app.CheckTx(abcitypes.RequestCheckTx{Tx: n.encode(&zzTx{from: 1, to: -3, typ: ctrlertypes.TRX_TRANSFER, amount: uint256.NewInt(1), gas: govp.MinTrxGas(), gasPrice: govp.GasPrice(), nonce: 0, signer: 1}), Type: abcitypes.CheckTxType_New})
 	h := int64(zzverif.Choose("q.height", 5)) // 0 = latest, 1..3, 4 = not yet committed
 	switch {
